@@ -218,7 +218,10 @@ pub fn edits(seed: &[u8], pairs: bool, mut f: impl FnMut(&[u8])) -> u64 {
 // ------------------------------------------------------------------------------------------
 // family 4: growth families
 
-pub const GROWTH_FAMILIES: [&str; 19] = [
+pub const GROWTH_FAMILIES: [&str; 22] = [
+    "name-length-sweep",
+    "name-length-sweep-ptr",
+    "label-count-sweep",
     "bitmap-window-len",
     "opt-option-len",
     "pointer-chain",
@@ -512,6 +515,48 @@ pub fn growth(family: &str, n: u32, qd1: bool) -> Option<Vec<u8>> {
                     m.extend(std::iter::repeat(0xffu8).take(32));
                 }
             }
+        }
+        // a question whose name is 63.63.63.<n>: 195+n wire octets (n = 61 is the last legal one)
+        "name-length-sweep" => {
+            if qd1 || n == 0 || n > 63 {
+                return None;
+            }
+            m = hdr(0, 1, 0, 0, 0);
+            for l in [63usize, 63, 63, n] {
+                m.push(l as u8);
+                m.extend(std::iter::repeat(b'n').take(l));
+            }
+            m.push(0);
+            m.extend_from_slice(&[0, 1, 0, 1]);
+        }
+        // question 1 = 63.63.63. (193 octets), question 2 = <n> + pointer to it: 194+n octets after expansion
+        "name-length-sweep-ptr" => {
+            if qd1 || n == 0 || n > 63 {
+                return None;
+            }
+            m = hdr(0, 2, 0, 0, 0);
+            for l in [63usize, 63, 63] {
+                m.push(l as u8);
+                m.extend(std::iter::repeat(b'n').take(l));
+            }
+            m.push(0);
+            m.extend_from_slice(&[0, 1, 0, 1]);
+            m.push(n as u8);
+            m.extend(std::iter::repeat(b'p').take(n));
+            m.extend_from_slice(&ptr(12));
+            m.extend_from_slice(&[0, 1, 0, 1]);
+        }
+        // a question whose name has 96+n one-octet labels (127 is the last legal count)
+        "label-count-sweep" => {
+            if qd1 || n == 0 || n > 64 {
+                return None;
+            }
+            m = hdr(0, 1, 0, 0, 0);
+            for _ in 0..96 + n {
+                m.extend_from_slice(&[1, b'c']);
+            }
+            m.push(0);
+            m.extend_from_slice(&[0, 1, 0, 1]);
         }
         // NSEC with one window whose length octet is n (valid up to 32), followed by n octets ff
         "bitmap-window-len" => {
